@@ -526,3 +526,98 @@ R.contract(
     replayable=False,
     max_paths=20000,
 )
+
+
+# ------------------------------------------------------------------------------------------------- negative_schema: whatever the mutations produce, only values INVALID for the original schema get out
+NEGI = "schemathesis.specs.openapi.negative:"
+R.uf("valid_for", ["ObjRef", "ObjRef"], "bool")
+
+
+def _validator_for(it, env):
+    from pyvc.values import VObj
+
+    v = VObj(it.resolve_class("spec:OriginalValidator"), {"schema": env["cache_key"].fields["schema"]})
+    it.ghost["validator_schema"] = env["cache_key"].fields["schema"]
+    return v
+
+
+R.contract(NEGI + "get_validator", args={"cache_key": Opq("Any")}, returns=_validator_for, trusted=True, note="Draft4Validator(cache_key.schema) (E3: jsonschema decides validity)")
+
+
+def _is_valid(it, obj, a, k):
+    import z3
+    from pyvc.values import wrap, z3_of, ref_sort
+
+    f = z3.Function("uf:valid_for", ref_sort("ObjRef"), ref_sort("ObjRef"), z3.BoolSort())
+    it.ghost["validated"] = it.ghost["validated"] + [(obj.fields["schema"], a[0])]
+    return Bool.make(it, it.path.fresh("is_valid")) if True else wrap(f(z3_of(obj.fields["schema"]), z3_of(a[0])))
+
+
+R.nominal_methods["spec:OriginalValidator"] = {"is_valid": lambda it, obj, a, k: _record_validity(it, obj, a)}
+
+
+def _record_validity(it, obj, a):
+    ans = it.path.choose([(False, True), (True, True)], "valid-for-the-original-schema")
+    it.ghost["validity"] = it.ghost["validity"] + [(obj.fields["schema"], a[0], ans)]
+    return ans
+
+
+def _mutated_strategy(it, env):
+    from pyvc.values import VObj
+
+    it.ghost["mutated_with"] = (env["keywords"], env["non_keywords"], env["location"], env["media_type"])
+    return VObj(it.resolve_class("spec:MutatedSchemas"), {})
+
+
+def _flatmap(it, obj, a, k):
+    """Exercise the function given to flatmap on an arbitrary mutated schema: what comes out must be a FILTERED strategy; then exercise the filter on an arbitrary value."""
+    mutated_schema = fresh_opaque(it, "MutatedSchema")
+    inner = it.call(a[0], [mutated_schema], {})
+    it.ghost["inner_strategy"] = inner
+    return ("flatmapped", obj)
+
+
+def _from_schema(it, a, k):
+    from pyvc.values import VObj
+
+    return VObj(it.resolve_class("spec:GeneratedFromSchema"), {"schema": a[0], "options": dict(k)})
+
+
+def _filter(it, obj, a, k):
+    from pyvc.values import VObj
+
+    value = fresh_opaque(it, "GeneratedValue")
+    verdict = it.call(a[0], [value], {})
+    it.ghost["filter_verdicts"] = it.ghost["filter_verdicts"] + [(value, verdict)]
+    return VObj(it.resolve_class("spec:FilteredStrategy"), {"of": obj})
+
+
+# (`mutated` is a @st.composite function: the strategy of mutated schemas - MutationContext.mutate has its own contract; here the NAME is bound to a stand-in that records its arguments)
+R.module_values[NEGI.rstrip(":") + ":mutated"] = __import__("pyvc.interp", fromlist=["BuiltinFn"]).BuiltinFn(
+    "mutated", lambda it, a, k: _mutated_strategy(it, {"keywords": a[0], "non_keywords": a[1], "location": a[2], "media_type": a[3]}))
+R.nominal_methods["spec:MutatedSchemas"] = {"flatmap": _flatmap}
+R.nominal_methods["spec:GeneratedFromSchema"] = {"filter": _filter}
+R.extern["hypothesis_jsonschema.from_schema"] = _from_schema
+_neq = R.contracts[NEGI + "is_non_empty_query"]
+_neq.returns = lambda it, env: it.ghost.__setitem__("non_empty_answers", it.ghost["non_empty_answers"] + [it.path.choose([(False, True), (True, True)], "non-empty-query")]) or it.ghost["non_empty_answers"][-1]
+_neq.call_ensures = {}
+_neq.requires_are_representation_invariant = True
+R.contract(
+    NEGI + "negative_schema",
+    prop="C02",
+    args={"schema": DictOf(required={"type": Const("object")}, optional={"required": Const(["a"]), "x-note": Str}), "operation_name": Str, "location": Choice("query", "body", "header"), "media_type": NoneT,
+          "generation_config": Obj("spec:GenCfg2", allow_x00=Bool, codec=Opt(Str)), "custom_formats": Opq("Formats")},
+    ghost={"validator_schema": None, "validity": [], "mutated_with": None, "inner_strategy": None, "filter_verdicts": [], "non_empty_answers": []},
+    raises=[],
+    ensures={
+        # "really violates the schema": every value that leaves the negative pipeline passed a filter that REJECTS whatever is valid for the ORIGINAL schema (not for the mutated one)
+        "the_guard_validates_against_the_original_schema": "ghost('validator_schema') is schema and all(sc is schema for sc, v, ans in ghost('validity'))",
+        "values_valid_for_the_original_schema_are_filtered_out": "length(ghost('filter_verdicts')) == 1 and is_instance(ghost('inner_strategy'), 'FilteredStrategy') and "
+            "all(implies(verdict, any(v is value and not ans for sc, v, ans in ghost('validity'))) for value, verdict in ghost('filter_verdicts'))",
+        # a "negative" query that encodes to nothing is indistinguishable from no query at all: rejected too
+        "an_empty_query_is_filtered_out": "implies(location == 'query', all(implies(verdict, length(ghost('non_empty_answers')) == 1 and ghost('non_empty_answers')[0]) for value, verdict in ghost('filter_verdicts')))",
+        "validation_keywords_and_the_rest_are_split_exactly": "ghost('mutated_with')[0] == {k: schema[k] for k in schema if k != 'x-note'} and ghost('mutated_with')[1] == {k: schema[k] for k in schema if k == 'x-note'} and "
+                                                              "ghost('mutated_with')[2] == location",
+    },
+    replayable=False,
+)
